@@ -211,6 +211,8 @@ def gen_value_arg(rng, prop):
         return ['missing']
     if prop == 'C03':
         k = rng.random()
+        if k < 0.12:
+            return ['typed', rng.choice(['pd', 'pl']), rng.random() < 0.6]
         if k < 0.3:
             return ['int', rng.choice([-1, 0, 3, 9, 10, 60])]
         if k < 0.45:
@@ -275,6 +277,8 @@ def gen_op(rng, prop):
         a['reverse'] = rng.random() < 0.3
     if k in ('d_setitem', 'd_setattr', 'd_delitem', 'd_pop', 'd_setdefault', 'o_setattr'):
         a['key'] = gen_key(rng)
+        if a.get('v') and a['v'][0] == 'typed':
+            a['key'] = ['new', a['v'][1]]       # aim the typed value at the field it fits
     if k == 'd_pop':
         a['default'] = rng.random() < 0.5
     if k in ('d_update', 'd_ior'):
@@ -287,8 +291,11 @@ def gen_op(rng, prop):
             v = gen_value_arg(rng, prop)
             if rng.random() < 0.12:
                 v = ['insertion', v]
-            a['paths'].append([[gen_key(rng) if rng.random() < 0.6 else gen_index(rng)
-                                for _ in range(rng.randint(1, 3))], v])
+            pth = [gen_key(rng) if rng.random() < 0.6 else gen_index(rng)
+                   for _ in range(rng.randint(1, 3))]
+            if v[0] == 'typed':
+                pth = pth[:-1] + [['new', v[1]]]
+            a['paths'].append([pth, v])
         a['notify_parents'] = rng.random() < 0.85
         a['skip_notification'] = rng.choice([None, None, None, True, False])
         a['reject_at'] = rng.randint(0, 3) if rng.random() < 0.15 else None
@@ -480,6 +487,8 @@ def _materialize(forest, vdesc):
         return pg.Insertion(_materialize(forest, vdesc[1]))
     if vdesc[0] in ('rec', 'rec2'):
         return forest.build_rec(vdesc)
+    if vdesc[0] == 'typed':
+        return values.build(vdesc)
     return values.build(vdesc, symbolic=False)
 
 
@@ -1619,7 +1628,10 @@ def schema_errors(root, partial_ok, limit=2):
     for node, parent, key, path in values.walk(root):
         if len(errs) >= limit:
             break
-        may_be_partial = id(node) in partial_ok
+        # explicitly partial: the tree was made partial by the history, or the
+        # value itself was created with allow_partial=True
+        may_be_partial = id(node) in partial_ok or bool(
+            isinstance(node, pg.Symbolic) and node.allow_partial)
         where = f'{type(node).__name__}@{list(path)}'
         schema = _schema_of(node)
         if schema is not None:
